@@ -230,6 +230,44 @@ def compare_session(c, impl, mod, j):
             return any(k(a) for a, _ in al[t])
         except Exception:
             return False
+    # ranking knife edges: momenta (or price vs moving average) that are equal in exact arithmetic, or within
+    # rounding noise, can be ordered differently by the float implementation - everything after that rebalance differs
+    def ranking_knife(t, mw, iw):
+        a = c['cfg']['alpha']
+        if a[0] not in ('topn', 'smatrend'):
+            return False
+        mset = set(k for k, x in mw if x != 0)
+        iset = set(k for k, x in iw if fr(x) not in (None, 0))
+        diff = mset ^ iset
+        if not diff:
+            return False
+        obs = impl.get('signal_obs') or {}
+        vals = []
+        for asset in diff:
+            w = [Fraction(p) for tt, p in obs.get(asset, []) if tt is not None and tt <= t and fr(p) is not None]
+            if a[0] == 'topn':
+                w = w[-(a[1] + 1):]
+                if len(w) < 2:
+                    vals.append(Fraction(0))
+                else:
+                    vals.append(w[-1] / w[0] - 1)
+            else:
+                w = w[-a[1]:]
+                if not w:
+                    return False
+                vals.append(w[-1] / (sum(w) / len(w)) - 1)
+        if a[0] == 'topn':
+            return max(vals) - min(vals) <= Fraction(1, 10**9) * max(1, max(abs(v) for v in vals))
+        return all(abs(v) <= Fraction(1, 10**9) for v in vals)
+    if tr['error'] is None and impl['error'] is None:
+        for (t, mw), (t2, iw) in zip(tr['allocs'], impl['allocs']):
+            if t != t2:
+                break
+            if [k for k, _ in mw] == [k for k, _ in iw] and any(not close(x, y, Fraction(1, 10**9)) for (_, x), (_, y) in zip(mw, iw)):
+                if ranking_knife(t, mw, iw):
+                    j.knife += 1
+                    return
+                break
     mf, ifl = tr['fills'], impl['fills']
     n = min(len(mf), len(ifl))
     for k in range(n):
